@@ -15,7 +15,7 @@ EXPLANATION = ('R11.2: for every well-formed class of the Unicode standard (all 
 ASSUMPTIONS = ['interval precision: a defect that permutes values inside one class without changing its bounds is not visible',
                'raw-pointer instantiations stand for all iterator types']
 TRUSTED = ['clang 14 AST + constant evaluation', 'bsfacts', 'bsv/dtab.py + bsv/interval.py', 'spec/unicode_spec.py']
-UNITS = ['w_convert.cpp', 'csv_readers.cpp']
+UNITS = ['w_convert.cpp', 'csv_readers.cpp', 'w_archives.cpp']   # w_archives: the archive-level transcoding (TranscodeStringByPolicy, key conversion)
 
 WIDTH = {'char': 1, 'char16_t': 2, 'char32_t': 4, 'wchar_t': 4}
 # (in width, out width) -> codec reached from Transcode (Unicode encoding forms); same width = plain copy
